@@ -92,6 +92,11 @@ CLAIMS.update({
             "Surface::local_value throws, who-may-call of alias-unaware implementations. Numeric sufficiency of the buffer near the poles "
             "and kd-tree pruning arithmetic are not decided",
             "§3.10, §3.4, §4 C07"),
+    "C08": ("who-may-call + alias-wrapper shape + twin-block comparison",
+            "ONLY the clause 'a point described with longitude L or L+-360 gets the same answer': shape and exclusive use of the alias "
+            "wrappers, frozen list of alias-aware sites, point/alias twin blocks of the ridge-distance routine identical under 1->2. "
+            "Translation/rotation/longitude-offset invariance (real arithmetic in every kernel) is not decided",
+            "§3.5, §4 C08"),
     "C09": ("algebraic normal form of the cross-section map + layout agreement + dominance of the refusal",
             "direction vector, Cartesian and spherical 2D->3D point map, degree conversion, release-active refusal as first statement, "
             "2D slot walker vs library width table, velocity projection evaluated in statement order, 2D single-property forwarding",
